@@ -905,6 +905,211 @@ def rule_R93(text, names, stats):
 RULE_DOC["R93"] = rule_R93.__doc__.strip()
 
 
+def _rule_for_method(src, stats, only, rid, method):
+    """shared by R94/R95: `for P in E { B }` (E a plain identifier) -> `for P in E.<method>() { B }`"""
+    while True:
+        code = _toks(src)
+        hit = False
+        for ordinal, (kw, bopen, bclose) in enumerate(_loops(code), 1):
+            if code[kw].text != "for":
+                continue
+            if only and ordinal not in only:
+                continue
+            m = re.match(r"for\s+(.+?)\s+in\s+(\w+)\s*$", src[code[kw].start:code[bopen].start], re.S)
+            if not m:
+                continue
+            src = _replace_spans(src, [(code[bopen - 1].end, code[bopen - 1].end, ".%s()" % method)])
+            stats[rid] = stats.get(rid, 0) + 1
+            hit = True
+            break
+        if not hit:
+            return src
+
+
+def rule_R94(src, stats, only=None):
+    """for P in E { B }  ->  for P in E.iter() { B }   (E an identifier bound to a SHARED reference to a std collection, e.g.
+    `&BTreeMap<K, V>`; select the loops with `R94@N+M`).  std defines `<&'a C as IntoIterator>::into_iter(self)` as `self.iter()`
+    for Vec, slices, BTreeMap, BTreeSet, VecDeque; vstd only specifies `BTreeMap::iter`.  If E were not such a reference the result would
+    not type-check (or would iterate by reference instead of by value and the body would not type-check)."""
+    return _rule_for_method(src, stats, only, "R94", "iter")
+
+
+def rule_R95(src, stats, only=None):
+    """for P in E { B }  ->  for P in E.iter_mut() { B }   (E an identifier bound to `&mut Vec<T>` / `&mut [T]`; select the loops with
+    `R95@N+M`).  std defines `<&'a mut Vec<T> as IntoIterator>::into_iter(self)` as `self.iter_mut()`; vstd only specifies `[T]::iter_mut`."""
+    return _rule_for_method(src, stats, only, "R95", "iter_mut")
+
+
+RULES["R94"] = rule_R94
+RULE_DOC["R94"] = rule_R94.__doc__.strip()
+RULES["R95"] = rule_R95
+RULE_DOC["R95"] = rule_R95.__doc__.strip()
+
+
+def rule_R99(src, stats, only=None):
+    """for P in E { B }  ->  for P in E.into_iter() { B }   (E an identifier bound to an OWNED std collection, e.g. a `BTreeMap<K, V>`
+    moved out of a `match`; select the loops with `R99@N+M`).  A `for` loop calls `IntoIterator::into_iter` on its operand; writing the
+    call out lets R6 bind the iterator (`let mut vx_itN = E.into_iter();`) so that a trusted model of the owning iterator applies."""
+    return _rule_for_method(src, stats, only, "R99", "into_iter")
+
+
+RULES["R99"] = rule_R99
+RULE_DOC["R99"] = rule_R99.__doc__.strip()
+
+
+def rule_R96(src, stats):
+    """R71 without the `.map(..)` stage: statement `let PAT: TY = E.filter(|P| C).collect();` (exactly this shape, checked token by token;
+    C an expression without `return`/`?`) ->
+    `let mut vx_vN = Vec::new(); let mut vx_fN = E; loop { match vx_fN.next() { Some(vx_eN) => { let vx_kN = { let P = &vx_eN; C };
+    if vx_kN { vx_vN.push(vx_eN); } } None => { break; } } } let PAT: TY = vx_vN;`   (N = ordinal of the rewritten statement).
+    Filter::next / Vec::from_iter unrolled: the predicate sees a reference to each item, the items that pass are pushed in iteration
+    order.  The new `loop` counts as a loop for `#!! loop N`; anchors: `let vx_k1 =`, `vx_v1.push(`."""
+    n = 0
+    while True:
+        code = _toks(src)
+        tx = [t.text for t in code]
+        hit = False
+        for i in range(len(code)):
+            if tx[i] != "let" or code[i].kind != "ident":
+                continue
+            d, k, eq = 0, i + 1, None
+            while k < len(code):
+                t = tx[k]
+                if t in ("(", "[", "{"):
+                    d += 1
+                elif t in (")", "]", "}"):
+                    if d == 0:
+                        break
+                    d -= 1
+                elif d == 0 and t == "=" and eq is None and not (tx[k + 1] in ("=", ">") and code[k].end == code[k + 1].start) \
+                        and not (tx[k - 1] in ("=", "!", "<", ">", "+", "-", "*", "/", "|", "&", "^", "%") and code[k - 1].end == code[k].start):
+                    eq = k
+                elif d == 0 and t == ";":
+                    break
+                k += 1
+            if eq is None or k >= len(code) or tx[k] != ";":
+                continue
+            semi = k
+            # tail must be  ) . collect ( ) ;
+            if tx[semi - 4:semi] != [".", "collect", "(", ")"] or tx[semi - 5] != ")":
+                continue
+            fil_close = semi - 5
+            fil_open = next((j for j in range(fil_close, eq, -1) if match_close_safe(code, j) == fil_close), None)
+            if fil_open is None or tx[fil_open - 2:fil_open] != [".", "filter"]:
+                continue
+            # closure `| PARAM | BODY` filling the whole argument list
+            lo, hi = fil_open + 1, fil_close
+            if tx[lo] != "|":
+                continue
+            dd, j = 0, lo + 1
+            while j < hi:
+                if tx[j] in ("(", "[", "{"):
+                    dd += 1
+                elif tx[j] in (")", "]", "}"):
+                    dd -= 1
+                elif tx[j] == "|" and dd == 0:
+                    break
+                j += 1
+            if j >= hi - 1 or "return" in tx[j + 1:hi] or "?" in tx[j + 1:hi]:
+                continue
+            param = src[code[lo + 1].start:code[j - 1].end]
+            body = src[code[j + 1].start:code[hi - 1].end]
+            n += 1
+            e_ = src[code[eq + 1].start:code[fil_open - 3].end]
+            head = src[code[i].start:code[eq].end]
+            new = ("let mut vx_v%d = Vec::new(); let mut vx_f%d = %s; loop { match vx_f%d.next() { Some(vx_e%d) => { "
+                   "let vx_k%d = { let %s = &vx_e%d; %s }; if vx_k%d { vx_v%d.push(vx_e%d); } } None => { break; } } } "
+                   "%s vx_v%d;" % (n, n, e_, n, n, n, param, n, body, n, n, n, head, n))
+            src = _replace_spans(src, [(code[i].start, code[semi].end, new)])
+            stats["R96"] = stats.get("R96", 0) + 1
+            hit = True
+            break
+        if not hit:
+            return src
+
+
+RULES["R96"] = rule_R96
+RULE_DOC["R96"] = rule_R96.__doc__.strip()
+
+
+def rule_R97(src, stats):
+    """R4 for closures with several parameters: a parameter that is the wildcard pattern `_` in `|P1, .., Pn|` (closure passed as a
+    call argument) -> `_vxN` (a fresh, unused variable; Verus only accepts variables as closure parameters)"""
+    code = _toks(src)
+    spans = []
+    i = 1
+    while i < len(code):
+        if code[i].text == "|" and code[i - 1].text in ("(", ","):
+            d, j = 0, i + 1
+            while j < len(code):
+                t = code[j].text
+                if t in ("(", "[", "{", "<"):
+                    d += 1
+                elif t in (")", "]", "}", ">"):
+                    d -= 1
+                elif t == "|" and d == 0:
+                    break
+                j += 1
+            for k in range(i + 1, j):
+                if code[k].text == "_" and code[k - 1].text in ("|", ",") and code[k + 1].text in ("|", ",", ":"):
+                    n = stats.get("R97", 0)
+                    spans.append((code[k].start, code[k].end, "_vx%d" % n)); stats["R97"] = n + 1
+            i = j + 1
+            continue
+        i += 1
+    return _replace_spans(src, spans)
+
+
+RULES["R97"] = rule_R97
+RULE_DOC["R97"] = rule_R97.__doc__.strip()
+
+
+def rule_R98(src, stats):
+    """R53 for closures with several parameters: `(|x1, .., xn| E)` (n >= 2, plain identifiers, non-block body, passed as a call
+    argument) -> `(|x1, .., xn| { E })` (E = the expression up to the next `,`/`)` at the closure's nesting depth).  A closure contract
+    (`-> (r: T) requires .. ensures ..`, given with `#!! after 1 `|x1, .., xn|``) needs a block body.  Apply after R97."""
+    while True:
+        code = _toks(src)
+        hit = False
+        for i in range(1, len(code) - 3):
+            if code[i].text != "|" or code[i - 1].text not in ("(", ","):
+                continue
+            j = i + 1
+            n = 0
+            while code[j].kind == "ident" and code[j + 1].text in (",", "|"):
+                n += 1
+                if code[j + 1].text == "|":
+                    j += 1
+                    break
+                j += 2
+            if n < 2 or code[j].text != "|" or code[j + 1].text in ("{", "-"):
+                continue
+            b = j + 1
+            d, k = 0, b
+            while True:
+                t = code[k].text
+                if t in ("(", "[", "{"):
+                    d += 1
+                elif t in (")", "]", "}"):
+                    if d == 0:
+                        break
+                    d -= 1
+                elif t == "," and d == 0:
+                    break
+                k += 1
+            end = code[k - 1].end
+            src = _replace_spans(src, [(code[b].start, code[b].start, "{ "), (end, end, " }")])
+            stats["R98"] = stats.get("R98", 0) + 1
+            hit = True
+            break
+        if not hit:
+            return src
+
+
+RULES["R98"] = rule_R98
+RULE_DOC["R98"] = rule_R98.__doc__.strip()
+
+
 # --------------------------------------------------------------------------- unit parsing
 
 class FnSpec:
@@ -1042,7 +1247,7 @@ def splice_fn(fs, stats, canary=False, stub=False):
         if rid == "R10":
             continue
         before = text
-        if rid in ("R1", "R6"):
+        if rid in ("R1", "R6", "R94", "R95", "R99"):
             text = RULES[rid](text, stats, only)
         else:
             text = RULES[rid](text, stats)
@@ -1157,11 +1362,28 @@ def splice_fn(fs, stats, canary=False, stub=False):
                 if len(h2) == 1:
                     alt = (h2[0], cut)
                     break
-            if alt is None or where == "after":
+            endtok = None
+            if alt is not None and where == "after" and pat[-1] == ";":
+                # `after` a whole statement that was edited inside: the hint goes after the `;` that ends the statement starting
+                # with the matched prefix (bracket depth 0), so that Verus judges the edited statement with the hint in place
+                dd = 0
+                for j2 in range(alt[0], body_close):
+                    tx = code[j2].text
+                    if tx in "([{":
+                        dd += 1
+                    elif tx in ")]}":
+                        dd -= 1
+                        if dd < 0:
+                            break
+                    elif tx == ";" and dd == 0:
+                        endtok = j2
+                        break
+            if alt is None or (where == "after" and endtok is None):
                 stats.setdefault("warnings", []).append({"fn": fs.name, "kind": "anchor", "what": "anchor `%s` #%d not found in %s::%s (proof hint dropped)" % (stmt, n, fs.file, fs.name)})
                 continue
             stats.setdefault("notes", []).append({"fn": fs.name, "what": "anchor `%s` matched by its unique prefix of %d tokens" % (stmt, alt[1])})
-            inserts.append((code[alt[0]].start, "\n" + ptext.rstrip() + "\n", "%s `%s` (prefix match)" % (where, stmt)))
+            ipos = code[alt[0]].start if where == "before" else code[endtok].end
+            inserts.append((ipos, "\n" + ptext.rstrip() + "\n", "%s `%s` (prefix match)" % (where, stmt)))
             continue
         j = hits[n - 1]
         pos = code[j].start if where == "before" else code[j + len(pat) - 1].end
